@@ -1,6 +1,7 @@
 import os, sys, json
 sys.path.insert(0, os.path.dirname(__file__))
 import alloc_common as ac
+import reconciler_part
 import poolstatus_part
 import allocmaps_part
 
@@ -18,6 +19,8 @@ def run(ctx):
     distinct = len({json.dumps(c["in"], sort_keys=True) for c in cases if len(c["in"]) >= 3})
     ctx.cov["correspondence"] = {"histories": len(cases), "operations": nsteps, "mismatches": len(mism), "generator_counters": st, "pool_status_reconciles": n_ps, "pool_status_counters": st_ps,
                                  "allocmaps_histories": n_am, "allocmaps_counters": st_am}
+    # PoolReconciler / ConfigReconciler glue (cfg group): what the allocator is handed is config.For of the current cluster state
+    n_rec, st_rec = reconciler_part.run_reconciler(ctx, None)
     ctx.trusted += ["internal/k8s/controllers/pool_status_controller.go is not modelled: the real PoolStatusReconciler is driven with scripted counters and its written status compared with them (oracle only)",
                     "model covers internal/allocator/allocator.go: Assign, Unassign, Allocate, AllocateFromPool, AllocateFromPoolForAdditionalFamily, SetPools, checkSharing, sharingOK, poolFor, isPoolCompatibleWithService, pinnedPoolsForService, findBestPoolForService, getFreeIPsFromPool/getIPFromCIDR, poolCount, updatePoolStats, CountersForPool; allocation.go selectIPsForFamilyAndPolicy",
                     "the allocator's derived maps (sharingKeyForIP, portsInUse, servicesOnIP, poolIP*InUse) are modelled as functions of the service->allocation map; their agreement with the Go maps is checked after every operation by checkSharing probes and counters (correspondence), not proved",
